@@ -57,6 +57,10 @@ def run(ctx: Ctx, rep: Report) -> None:
     align(ctx, rep)
     C10.radix(ctx, rep)
     synth_pass(ctx, rep)
+    # the state-system target is W V^dagger: complex state matrices are
+    # adjoined, never transposed bare
+    from ..rules.adjoint import rule_adjoint
+    rule_adjoint(ctx, rep, ('bqskit/qis/state/',), 2)
 
 
 def wf_direct(ctx: Ctx, rep: Report) -> None:
